@@ -178,6 +178,8 @@ class Interp:
                 if key in env:
                     return env[key]
                 raise EngineError("tagsem: receiver field not modelled: " + key)
+            if b.get("k") == "Path" and (b["path"] + "." + e["member"]) in env:
+                return env[b["path"] + "." + e["member"]]
             return Sym("field", repr(self.expr(b, env)), e["member"])
         if k == "Unary":
             v = self.expr(e["e"], env)
